@@ -87,7 +87,11 @@ def apply_edit(ctx, data, levels, names, parents, kind):
     if kind == 'duplicate_cell':
         leaves = names[-1]
         a = ctx.choice('edit_leaf', len(leaves))
-        d[levels[-1]][leaves[a]].append(d[levels[-1]][leaves[0]][0])
+        src = [x for x in leaves if d[levels[-1]][x]]
+        if not src:
+            raise core.PathAbort('no cell to duplicate')
+        b = src[ctx.choice('edit_leaf_from', len(src))]
+        d[levels[-1]][leaves[a]].append(d[levels[-1]][b][0])
         return d
     if kind == 'missing_level_key':
         d.pop(levels[ctx.choice('edit_level', nl)])
@@ -110,13 +114,34 @@ def classify(f, case):
     return None
 
 
+def _alias(ctx, case, sizes, names):
+    """labels are only unique within a level: optionally let one node
+    carry the label of a node of some coarser level"""
+    if case.get('alias') and len(sizes) > 1:
+        li = 1 + ctx.choice('alias_level', len(sizes) - 1)
+        ci = ctx.choice('alias_node', sizes[li])
+        lj = ctx.choice('alias_from_level', li)
+        pj = ctx.choice('alias_of', sizes[lj])
+        names[li][ci] = names[lj][pj]
+
+
+def _thin_cells(ctx, case, data, levels, names):
+    """optionally empty the cell list of some leaves"""
+    if case.get('empty_leaves'):
+        for n in names[-1]:
+            if ctx.flag(f"no_cells[{n}]"):
+                data[levels[-1]][n] = []
+
+
 def h_validate(ctx, case):
     """accepted <=> strict tree, over every child->parent map and every
     single edit of it"""
     sizes = case['sizes']
     levels, names = level_names(sizes)
     parents = symbolic_parents(ctx, sizes)
+    _alias(ctx, case, sizes, names)
     data = tree_data(levels, names, parents, cells_per_leaf=2)
+    _thin_cells(ctx, case, data, levels, names)
     kind = EDITS[ctx.choice('edit', len(EDITS))]
     d = apply_edit(ctx, data, levels, names, parents, kind)
     want = strict_tree(d)
@@ -135,17 +160,24 @@ def h_validate(ctx, case):
 
 
 class Oracle:
+    """independent tree oracle.  Works on node *indices* internally, so
+    that labels repeated on different levels cannot confuse it."""
+
     def __init__(self, levels, names, parents):
         self.levels, self.names, self.parents = levels, names, parents
 
+    def _pidx(self, li, i):
+        return self.parents[li][i]
+
     def parent(self, li, n):
-        return self.names[li - 1][self.parents[li][self.names[li].index(n)]]
+        return self.names[li - 1][self._pidx(li, self.names[li].index(n))]
 
     def ancestor(self, li, n, lj):
+        i = self.names[li].index(n)
         while li > lj:
-            n = self.parent(li, n)
+            i = self._pidx(li, i)
             li -= 1
-        return n
+        return self.names[li][i]
 
     def kids(self, li, n):
         i = self.names[li].index(n)
@@ -164,6 +196,7 @@ def h_transform(ctx, case):
     sizes = case['sizes']
     levels, names = level_names(sizes)
     parents = symbolic_parents(ctx, sizes, onto=case.get('onto', False))
+    _alias(ctx, case, sizes, names)
     data = tree_data(levels, names, parents, cells_per_leaf=2)
     orc = Oracle(levels, names, parents)
     nl = len(levels)
@@ -292,6 +325,38 @@ def h_records(ctx, case):
     order = ctx.perm('row_order', len(recs)) if len(recs) <= 4 \
         else list(range(len(recs)))
     recs = [recs[i] for i in order]
+    if case.get('edit') and len(levels) > 1 and ctx.flag('edit_record'):
+        # malformed input: one row gets another label at one coarser
+        # level => some node may end up with two parents
+        ri = ctx.choice('edit_row', len(recs))
+        li = ctx.choice('edit_level', len(levels) - 1)
+        others = [x for x in names[li] if x != recs[ri][levels[li]]]
+        if not others:
+            raise core.PathAbort('no other label')
+        recs[ri] = dict(recs[ri])
+        recs[ri][levels[li]] = others[ctx.choice('edit_label', len(others))]
+        # expected: accepted iff every node still has exactly one parent
+        ok = True
+        for a, b in zip(levels[:-1], levels[1:]):
+            par = {}
+            for r in recs:
+                if par.setdefault(r[b], r[a]) != r[a]:
+                    ok = False
+        try:
+            t = TU.get_taxonomy_tree(copy.deepcopy(recs), list(levels))
+            got = True
+        except RuntimeError:
+            got = False
+        ctx.reach('edited')
+        ctx.check(got == ok, 'label columns in which a node has two '
+                  'parents are rejected, all others accepted')
+        if got and ok:
+            for a, b in zip(levels[:-1], levels[1:]):
+                for n in t[a]:
+                    ctx.check(set(t[a][n]) == {r[b] for r in recs
+                                               if r[a] == n},
+                              'children == label combinations present')
+        return 'edited'
     try:
         t = TU.get_taxonomy_tree(copy.deepcopy(recs), list(levels))
     except Exception as e:
@@ -331,8 +396,13 @@ T_SIZES = [{'sizes': s} for s in
             [2, 3, 4, 5], [2, 2, 3, 6], [2, 3, 4, 6])]
 
 HARNESSES = [
-    Harness('validator_vs_strict_tree', h_validate, cases=Q_SIZES,
-            thorough_cases=T_SIZES[:24], classify=classify,
+    Harness('validator_vs_strict_tree', h_validate,
+            cases=Q_SIZES + [{'sizes': [2, 3], 'empty_leaves': True},
+                             {'sizes': [2, 2], 'alias': True}],
+            thorough_cases=T_SIZES[:24]
+            + [{'sizes': [2, 3], 'empty_leaves': True},
+               {'sizes': [2, 2, 3], 'empty_leaves': True},
+               {'sizes': [2, 2, 3], 'alias': True}], classify=classify,
             funcs=['taxonomy.utils.validate_taxonomy_tree',
                    'get_child_to_parent', 'TaxonomyTree.__init__'],
             bounds='every child->parent map of the listed level sizes (<=3 '
@@ -342,8 +412,14 @@ HARNESSES = [
             outside='name strings are opaque (fixed distinct names in '
                     'non-alphabetical index order)',
             expect_reach=['accepted', 'rejected'], selftest=0, split=32),
-    Harness('tree_transformations', h_transform, cases=Q_SIZES,
-            thorough_cases=T_SIZES,
+    Harness('tree_transformations', h_transform,
+            cases=Q_SIZES + [{'sizes': [2, 2, 3], 'alias': True},
+                             {'sizes': [1, 2, 2, 3], 'alias': True}],
+            thorough_cases=T_SIZES + [{'sizes': [2, 2, 3], 'alias': True},
+                                      {'sizes': [2, 2, 2, 3],
+                                       'alias': True},
+                                      {'sizes': [1, 2, 3, 4],
+                                       'alias': True}],
             funcs=['TaxonomyTree.flatten', '_drop_level', 'to_str',
                    'from_str', 'parents', 'children', 'as_leaves',
                    'leaves_to_compare', 'all_parents',
@@ -353,12 +429,18 @@ HARNESSES = [
                    'every droppable level; every parent',
             expect_reach=['built'], selftest=0, split=32),
     Harness('tree_from_records', h_records,
-            cases=[{'sizes': s} for s in ([2], [1, 2], [2, 3], [2, 2, 3])],
+            cases=[{'sizes': s} for s in ([2], [1, 2], [2, 3], [2, 2, 3])]
+            + [{'sizes': [2, 2, 2], 'edit': True},
+               {'sizes': [2, 3], 'edit': True}],
             thorough_cases=[{'sizes': s} for s in
                             ([2], [1, 2], [2, 3], [2, 2, 3], [2, 3, 4],
-                             [2, 2, 3, 4])],
+                             [2, 2, 3, 4])]
+            + [{'sizes': [2, 2, 2], 'edit': True},
+               {'sizes': [2, 2, 3], 'edit': True},
+               {'sizes': [2, 3], 'edit': True}],
             funcs=['taxonomy.utils.get_taxonomy_tree'],
             bounds='every onto child->parent map of the listed sizes, 1-2 '
-                   'cells per leaf, every row order for <=4 rows',
-            expect_reach=['built'], selftest=0),
+                   'cells per leaf, every row order for <=4 rows; plus one '
+                   'edit of one label of one row (malformed columns)',
+            expect_reach=['built', 'edited'], selftest=0, split=32),
 ]
